@@ -12,7 +12,7 @@ def run(c):
     mn = 3000 if c.tier == "quick" else 60000
     res, d = c.tool("htmloracle", ["-seed", c.seed, "-tier", c.tier, "-n", n, "-model-n", mn])
     if res is not None:
-        c.corr("Html.html_minify (token-level model of html.Minify on attribute-free documents: white-space machine, pre/raw text, tag omission, document tags, options) vs html.Minify on the token stream of the real parse/html lexer; html_escape_attr_val vs parse/html.EscapeAttrVal", d)
+        c.corr("Html.html_minify (token-level model of html.Minify on attribute-free documents: white-space machine, pre/raw text, tag omission, document tags, options) vs html.Minify on the token stream of the real parse/html lexer; html_escape_attr_val vs parse/html.EscapeAttrVal; Html.attrs_out (attribute loop: value processing by trait, empty / default omission by the regenerated rules, boolean attributes, quoting) vs the attributes html.Minify writes for generated start tags", d)
         ex = res.get("extra") or {}
         # on how many of the real token lists does html_words_preserved apply?  (wf_tokens_b, proved sound, extracted)
         try:
